@@ -470,3 +470,23 @@ Example ex_unit_calls :
       [("run", [("r.s", "Foo", "go", 6, 6, 8); ("t", "Bar", "", 6, 25, 32); ("t", "Bar", "save", 7, 8, 12);
                 ("p.q", "A", "help", 7, 20, 24)])])].
 Proof. vm_compute. reflexivity. Qed.
+
+(* ------------------------------------------------------------------ D-C02-3: the resolution clause is FALSE for a field
+   written with its qualifier.  In class p.q.A (imports r.s.Foo first, fields `Foo foo` and `Bar bar`, Bar being a class
+   of the project in p.q) the call this.bar.go() is filed under node "this.bar" and the package r.s of the first import,
+   not under Bar / p.q: WarpTargetFullType takes the first segment "this" for a superclass reference and, the class
+   extending nothing, has_suffix "" accepts any import. *)
+Definition ex_this_unit : junit :=
+  mkUnit "src/A.java" "p.q" true ["r.s.Foo"] "class" "A" [] [] []
+         [mkMember "field" "" "Foo" "Foo" ["foo"] [] false [] true [] ["private"] (ex_p 0 0 0 0) (ex_p 3 10 3 17) [];
+          mkMember "field" "" "Bar" "Bar" ["bar"] [] false [] true [] ["private"] (ex_p 0 0 0 0) (ex_p 4 10 4 17) [];
+          mkMember "method" "run" "void" "" [] [] false [] true [] ["public"] (ex_p 5 14 0 0) (ex_p 5 9 7 2)
+                   [ECall "go" "this.bar" false "" "go()" [] false (ex_p 6 13 6 16);
+                    ECall "go" "bar" false "" "go()" [] false (ex_p 6 30 6 33)]].
+
+Theorem resolution_this_field_refuted :
+  exists (idents : list string) (u : junit),
+    map (fun d => map (fun f => map (fun c => (c_pkg c, c_node c, c_fn c)) (f_calls f)) (d_funcs d))
+        (snd (analysis_files fstate0 idents [u]))
+    = [[[("r.s", "this.bar", "go"); ("p.q", "Bar", "go")]]].
+Proof. exists ["p.q.A"; "p.q.Bar"], ex_this_unit. vm_compute. reflexivity. Qed.
